@@ -88,6 +88,21 @@ pub fn gen(id: &str, r: &mut Rng, out: &mut Vec<Case>) {
                 out.push(case(op, '-', 0, v));
             }
         }
+        "SQRT" => {
+            // square root only (the correction branches of the digit recurrence are rare): every mode
+            let x = match r.below(8) {
+                0 => sqrt_operand(r),
+                1 => { let q = 1 + r.below(17) as u32; let a = coeff(r, q); let k = r.below(35 - 2 * q as u64 + 1) as u32;
+                       enc(false, (a * a) * pow10(k & !1u32).min(P34 / (a * a).max(1)), exponent(r)) }
+                2 => { // just below / above a perfect square of a 17-digit root
+                    let a = coeff(r, 17); let d = r.below(3) as u128;
+                    enc(false, (a * a + d).min(P34 - 1).saturating_sub(if r.chance(1, 2) { 1 } else { 0 }), exponent(r)) }
+                3 => enc(false, coeff(r, 34), exponent(r)),
+                4 => enc(false, coeff(r, 33), exponent(r)),
+                _ => enc(false, coeff_upto(r, 34), exponent(r)),
+            };
+            out.push(case("square_root", *r.pick(&['0', '1', '2', '3', '4']), 0, vec![d(x)]));
+        }
         "C02" => {
             let (x, y, z) = fma_triple(r);
             out.push(case("fused_multiply_add", mode_tok(r), flags_in(r), vec![d(x), d(y), d(z)]));
